@@ -60,6 +60,10 @@ func (f *Expt) Call(s *slip.Scope, args slip.List, depth int) (result slip.Objec
 		}
 		if base != nil {
 			if 0 <= pow {
+				if exptTooBig(base, int64(pow)) {
+					slip.ArithmeticPanic(s, depth, f, args,
+						"the result of raising %s to the power %d is too large to represent", args[0], pow)
+				}
 				return exptRational(base, int64(pow))
 			}
 			if base.Sign() == 0 {
@@ -99,6 +103,21 @@ func (f *Expt) Call(s *slip.Scope, args slip.List, depth int) (result slip.Objec
 		slip.TypePanic(s, depth, "base", base, "number")
 	}
 	return
+}
+
+// exptMaxBits is the largest exact result expt will build, 2^24 bits or 2MB.
+const exptMaxBits = 1 << 24
+
+// exptTooBig returns true if the numerator or denominator of base raised to
+// pow is certain to need more than exptMaxBits bits. A value of n bits is at
+// least 2^(n-1) so the power has at least (n-1)*pow bits.
+func exptTooBig(base *big.Rat, pow int64) bool {
+	for _, n := range []int{base.Num().BitLen(), base.Denom().BitLen()} {
+		if 1 < n && exptMaxBits/int64(n-1) < pow {
+			return true
+		}
+	}
+	return false
 }
 
 // exptRational returns a rational base raised to a non-negative integer power
